@@ -386,7 +386,7 @@ def _kind_sweep_cases(master, facts):
         chosen = []
         for f in faults.enumerate_faults(world, opts, facts):
             key = (f["class"], f["kind"], f.get("table"), f.get("field"), f.get("section"), f.get("value") if f["class"] in ("cmdline", "config") else None, f.get("pair"), f.get("frac"), f.get("variant"),
-                   _row_type(world, f) if f["class"] in ("nonpositive", "zero_spot", "both_fees", "bad_type") else None)
+                   _row_type(world, f) if (f["class"] in ("nonpositive", "zero_spot", "both_fees", "bad_type") or f["kind"].startswith("empty_")) else None)
             if key in seen:
                 continue
             seen.add(key)
